@@ -86,6 +86,21 @@ func checkStoryFacts(c ExecCase) (v *Violation, f storyFacts) {
 		at := fmt.Sprintf("[%s] %q on %s", m.name, c.Path, c.Doc)
 		q, fi, ex, ma, eom := m.o.Query, m.o.First, m.o.Exists, m.o.Match, m.o.EoM
 		qItems := RenderSeq(q.Items, false)
+		if fi.Class != EOK && fi.Item != nil {
+			return violf("%s: First returned both an item and an error", at), f
+		}
+		if q.Class != EOK && q.Items != nil {
+			return violf("%s: Query returned both items and an error", at), f
+		}
+		if ex.Class != EOK && ex.Bool {
+			return violf("%s: Exists returned true together with an error", at), f
+		}
+		if open && m.name == "silent" {
+			// a silent run stops at the first suppressed error, and with an open
+			// member order two runs may stop at different points: their partial
+			// results are not comparable
+			continue
+		}
 
 		// First = first item of Query, same error
 		if !open {
@@ -107,12 +122,6 @@ func checkStoryFacts(c ExecCase) (v *Violation, f storyFacts) {
 			if len(qItems) > 0 && !contains(qItems, got) {
 				return violf("%s: First = %s is not among Query's items %v", at, got, qItems), f
 			}
-		}
-		if fi.Class != EOK && fi.Item != nil {
-			return violf("%s: First returned both an item and an error", at), f
-		}
-		if q.Class != EOK && q.Items != nil {
-			return violf("%s: Query returned both items and an error", at), f
 		}
 
 		// Match = f(Query)
@@ -152,9 +161,6 @@ func checkStoryFacts(c ExecCase) (v *Violation, f storyFacts) {
 			return violf("%s: ExistsOrMatch = %v/%s but %s = %v/%s (IsPredicate=%v)", at, eom.Bool, eom.Class, refName, ref.Bool, ref.Class, pr.p.IsPredicate()), f
 		}
 
-		if ex.Class != EOK && ex.Bool {
-			return violf("%s: Exists returned true together with an error", at), f
-		}
 		// Exists never reports true when a complete evaluation yields no item
 		if ex.Class == EOK && ex.Bool && !open {
 			sq := silent.Query
@@ -186,6 +192,9 @@ func checkStoryFacts(c ExecCase) (v *Violation, f storyFacts) {
 			o    Obs
 		}{{"verbose", verbose}, {"silent", silent}} {
 			q, ex := m.o.Query, m.o.Exists
+			if open && m.name == "silent" {
+				continue
+			}
 			if q.Class == ESupp || q.Class == EHard {
 				bad := ex.Class == EOK || ex.Class == ENull
 				if !open && ex.Class != q.Class {
